@@ -1,9 +1,356 @@
-import EphVerif.Model.ControlWire
+/-
+C29 — control responses reach the client intact, so list shows every chunk.
+
+`roundtrip`: for every response the daemon can hand to `send_response` (keys distinct, over
+`[A-Z_-]+`-like strings other than STATUS / PAYLOAD-LENGTH; values arbitrary bytes; no physical line
+over the client's limit; payload within the client's limit), every iteration order of the field map:
+`parse_response (send_response r)` = the same success flag, exactly the emitted fields (the
+daemon's fields plus PAYLOAD-LENGTH when there is a payload), the same payload.
+`list`: for every chunk snapshot, what `eph list` prints from the LIST response is the count line
+followed by exactly one line per chunk, whatever the number of chunks and the emission order.
+-/
+import EphVerif.Lemmas.C29List
 import EphVerif.Spec.Control
 
 namespace EphVerif.C29
+open EphVerif.Control
 
 /-- (T) the escape table of `encode_field_value` is the one the model uses -/
 theorem encode_table_eq : Gen.C29.encodeTable = [(92, [92, 92]), (13, [92, 114]), (10, [10, 9])] := by decide
+
+/-- (T) both sides of the repair are present and the client's line limit is 16 KiB -/
+theorem framing_present : Gen.C29.serverEncodesValues = 1 ∧ Gen.C29.clientDecodesValues = 1 ∧
+    Gen.C29.kClientMaxLineLength = 16384 := by decide
+
+/-- the model's `encode_field_value` follows the extracted table -/
+theorem encodeValue_follows_table (v : Bytes) :
+    encodeValue v = v.flatMap fun c =>
+      match Gen.C29.encodeTable.find? (fun p => p.1 == c.toNat) with
+      | some p => p.2.map UInt8.ofNat
+      | none => [c] := by
+  unfold encodeValue
+  apply flatMap_congr'
+  intro c _
+  by_cases h92 : c = 92
+  · subst h92; decide
+  · by_cases h13 : c = 13
+    · subst h13; decide
+    · by_cases h10 : c = 10
+      · subst h10; decide
+      · have n92 : ¬ c.toNat = 92 := fun h => h92 (UInt8.toNat_inj.mp (by simpa using h))
+        have n13 : ¬ c.toNat = 13 := fun h => h13 (UInt8.toNat_inj.mp (by simpa using h))
+        have n10 : ¬ c.toNat = 10 := fun h => h10 (UInt8.toNat_inj.mp (by simpa using h))
+        have e92 : (92 == c.toNat) = false := by simpa using Ne.symm n92
+        have e13 : (13 == c.toNat) = false := by simpa using Ne.symm n13
+        have e10 : (10 == c.toNat) = false := by simpa using Ne.symm n10
+        simp [Gen.C29.encodeTable, h92, h13, h10, List.find?, e92, e13, e10]
+
+/-! ## what the daemon can emit -/
+
+/-- the property's key class: non-empty, over `A-Z`, `_`, `-` -/
+def keyClass (k : Bytes) : Bool := !k.isEmpty && k.all fun b => (65 ≤ b.toNat && b.toNat ≤ 90) || b == 95 || b == 45
+
+theorem keyOk_of_class {k : Bytes} (hc : keyClass k = true) (hs : k ≠ ascii "STATUS") (hp : k ≠ ascii "PAYLOAD-LENGTH") :
+    KeyOk k := by
+  unfold keyClass at hc
+  simp only [Bool.and_eq_true, Bool.not_eq_eq_eq_not, Bool.not_true, List.all_eq_true, Bool.or_eq_true, decide_eq_true_eq,
+    beq_iff_eq] at hc
+  have hall := hc.2
+  have hbyte : ∀ c ∈ k, (c ≠ 58 ∧ c ≠ 10 ∧ c ≠ 13) ∧ c ≠ 9 ∧ upperByte c = c := by
+    intro c hcm
+    rcases hall c hcm with (⟨h1, h2⟩ | h) | h
+    · refine ⟨⟨?_, ?_, ?_⟩, ?_, ?_⟩
+      · intro hh; subst hh; simp at h1
+      · intro hh; subst hh; simp at h1
+      · intro hh; subst hh; simp at h1
+      · intro hh; subst hh; simp at h1
+      · unfold upperByte
+        have : ¬ (97 ≤ c.toNat ∧ c.toNat ≤ 122) := by omega
+        simp [this]
+    · subst h; decide
+    · subst h; decide
+  refine ⟨fun c h => (hbyte c h).1, ?_, ?_, hs, hp⟩
+  · cases hk : k with
+    | nil => simp
+    | cons a t =>
+      have := (hbyte a (by rw [hk]; simp)).2.1
+      simpa using this
+  · unfold toUpper
+    conv => rhs; rw [← List.map_id k]
+    apply List.map_congr_left
+    intro c h
+    exact (hbyte c h).2.2
+
+/-- a response `send_response` can be given -/
+structure Emittable (limit : Nat) (r : Response) : Prop where
+  keys : ∀ e ∈ r.fields, KeyOk e.1
+  lines : ∀ e ∈ r.fields, LinesOk clientMaxLine e.1 e.2
+  nodup : (r.fields.map (·.1)).Nodup
+  payloadLimit : r.payload.length ≤ limit
+  payloadU64 : r.payload.length < 18446744073709551616
+  noPayload : r.hasPayload = false → r.payload = []
+
+/-! ## auxiliary facts on the folds -/
+
+theorem foldl_setField_fresh : ∀ (emitted fs : Fields), (emitted.map (·.1)).Nodup →
+    (∀ e ∈ emitted, ∀ p ∈ fs, p.1 ≠ e.1) →
+    emitted.foldl (fun fs e => setField fs e.1 e.2) fs = fs ++ emitted
+  | [], fs, _, _ => by simp
+  | e :: emitted, fs, hn, hd => by
+    simp only [List.map_cons, List.nodup_cons] at hn
+    rw [List.foldl_cons, setField_fresh (hd e (by simp))]
+    rw [foldl_setField_fresh emitted (fs ++ [(e.1, e.2)]) hn.2]
+    · simp
+    · intro e' he' p hp
+      rcases List.mem_append.mp hp with hp | hp
+      · exact hd e' (by simp [he']) p hp
+      · have : p = (e.1, e.2) := by simpa using hp
+        rw [this]
+        intro heq
+        exact hn.1 (by rw [heq]; exact List.mem_map_of_mem he')
+
+theorem foldl_nextPL (n : Nat) (hn : n < 18446744073709551616) : ∀ (emitted : Fields) (init : Option Nat),
+    (∀ e ∈ emitted, e.1 = ascii "PAYLOAD-LENGTH" → e.2 = toDec n) →
+    emitted.foldl nextPL init = if emitted.any (fun e => e.1 == ascii "PAYLOAD-LENGTH") then some n else init
+  | [], init, _ => by simp
+  | e :: emitted, init, h => by
+    rw [List.foldl_cons, foldl_nextPL n hn emitted _ (fun e' he' => h e' (by simp [he']))]
+    by_cases hk : e.1 = ascii "PAYLOAD-LENGTH"
+    · have := h e (by simp) hk
+      simp only [nextPL, hk, ↓reduceIte, this, parseU64_toDec n hn, List.any_cons, beq_self_eq_true, Bool.true_or]
+      split <;> rfl
+    · have hk' : (e.1 == ascii "PAYLOAD-LENGTH") = false := by simpa using hk
+      simp only [nextPL, hk, ↓reduceIte, List.any_cons, hk', Bool.false_or]
+
+theorem status_line (success : Bool) (rest : Bytes) :
+    lineLoop clientMaxLine clientLine (ascii (if success then "STATUS:OK\n" else "STATUS:ERROR\n") ++ rest) [] 0 {} =
+      lineLoop clientMaxLine clientLine rest [] 0 { statusSeen := true, success := success } := by
+  cases success with
+  | true =>
+    have h : ascii "STATUS:OK\n" = ascii "STATUS:OK" ++ [10] := by decide
+    simp only [↓reduceIte, h, List.append_assoc, List.singleton_append]
+    rw [lineLoop_line clientMaxLine clientLine (ascii "STATUS:OK") rest {} (by decide) (by decide)]
+    have h2 : (stripCR (ascii "STATUS:OK")).isEmpty = false := by decide
+    have h3 : clientLine {} (stripCR (ascii "STATUS:OK")) = .next { statusSeen := true, success := true } := by decide
+    simp only [h2, Bool.false_eq_true, ↓reduceIte, h3]
+  | false =>
+    have h : ascii "STATUS:ERROR\n" = ascii "STATUS:ERROR" ++ [10] := by decide
+    simp only [Bool.false_eq_true, ↓reduceIte, h, List.append_assoc, List.singleton_append]
+    rw [lineLoop_line clientMaxLine clientLine (ascii "STATUS:ERROR") rest {} (by decide) (by decide)]
+    have h2 : (stripCR (ascii "STATUS:ERROR")).isEmpty = false := by decide
+    have h3 : clientLine {} (stripCR (ascii "STATUS:ERROR")) = .next { statusSeen := true, success := false } := by decide
+    simp only [h2, Bool.false_eq_true, ↓reduceIte, h3]
+
+theorem wireFields_eq {limit : Nat} {r : Response} (he : Emittable limit r) :
+    r.wireFields = if r.hasPayload then r.fields ++ [(ascii "PAYLOAD-LENGTH", toDec r.payload.length)] else r.fields := by
+  unfold Response.wireFields
+  split
+  · rw [setField_fresh (fun p hp => (he.keys p hp).notPL)]
+  · rfl
+
+/-- **C29.roundtrip** -/
+theorem roundtrip (limit : Nat) (r : Response) (emitted : Fields) (he : Emittable limit r) (hperm : emitted.Perm r.wireFields) :
+    parseResponse limit (serialise r.success emitted r.payload) =
+      { success := r.success, fields := emitted, hasPayload := r.hasPayload, payload := r.payload } := by
+  have hw := wireFields_eq he
+  -- every emitted entry is an ordinary field or the PAYLOAD-LENGTH entry
+  have hentry : ∀ e ∈ emitted, EntryOk clientMaxLine e := by
+    intro e hem
+    have hmem := hperm.mem_iff.mp hem
+    rw [hw] at hmem
+    split at hmem
+    · rcases List.mem_append.mp hmem with h | h
+      · exact Or.inl ⟨he.keys e h, he.lines e h⟩
+      · exact Or.inr ⟨r.payload.length, he.payloadU64, by simpa using h⟩
+    · exact Or.inl ⟨he.keys e hmem, he.lines e hmem⟩
+  -- its keys are distinct
+  have hnodup : (emitted.map (·.1)).Nodup := by
+    have hp : (emitted.map (·.1)).Perm (r.wireFields.map (·.1)) := hperm.map _
+    rw [hp.nodup_iff, hw]
+    split
+    · rw [List.map_append, List.nodup_append]
+      refine ⟨he.nodup, by simp, ?_⟩
+      intro a ha b hb
+      obtain ⟨p, hp', rfl⟩ := List.mem_map.mp ha
+      have : b = ascii "PAYLOAD-LENGTH" := by simpa using hb
+      rw [this]
+      exact (he.keys p hp').notPL
+    · exact he.nodup
+  -- a PAYLOAD-LENGTH entry, if any, carries the payload's length
+  have hplval : ∀ e ∈ emitted, e.1 = ascii "PAYLOAD-LENGTH" → e.2 = toDec r.payload.length := by
+    intro e hem hk
+    have hmem := hperm.mem_iff.mp hem
+    rw [hw] at hmem
+    split at hmem
+    · rcases List.mem_append.mp hmem with h | h
+      · exact absurd hk (he.keys e h).notPL
+      · have : e = (ascii "PAYLOAD-LENGTH", toDec r.payload.length) := by simpa using h
+        rw [this]
+    · exact absurd hk (he.keys e hmem).notPL
+  have hany : emitted.any (fun e => e.1 == ascii "PAYLOAD-LENGTH") = r.hasPayload := by
+    cases hh : r.hasPayload with
+    | true =>
+      rw [List.any_eq_true]
+      refine ⟨(ascii "PAYLOAD-LENGTH", toDec r.payload.length), hperm.mem_iff.mpr ?_, by simp⟩
+      rw [hw, hh]; simp
+    | false =>
+      rw [List.any_eq_false]
+      intro e hem
+      have hmem := hperm.mem_iff.mp hem
+      rw [hw, hh] at hmem
+      simpa using (he.keys e hmem).notPL
+  unfold parseResponse serialise
+  rw [status_line]
+  obtain ⟨c, hloop⟩ := fields_loop clientMaxLine (by decide) emitted r.payload { statusSeen := true, success := r.success } hentry
+  rw [hloop]
+  simp only [foldl_setField_fresh emitted [] hnodup (by intro e _ p hp; simp at hp), List.nil_append,
+    foldl_nextPL r.payload.length he.payloadU64 emitted none hplval, hany, ↓reduceIte]
+  cases hh : r.hasPayload with
+  | true =>
+    have h1 : ¬ r.payload.length > limit := by have := he.payloadLimit; omega
+    simp only [↓reduceIte, h1, Nat.lt_irrefl, and_false, List.take_length]
+  | false =>
+    simp only [Bool.false_eq_true, ↓reduceIte, he.noPayload hh]
+
+/-- corollary in the specification's terms: the client's view is the daemon's, as a map -/
+theorem roundtrip_view (limit : Nat) (r : Response) (emitted : Fields) (he : Emittable limit r) (hperm : emitted.Perm r.wireFields) :
+    let c := parseResponse limit (serialise r.success emitted r.payload)
+    c.success = r.success ∧ c.fields.Perm r.wireFields ∧ c.hasPayload = r.hasPayload ∧ c.payload = r.payload := by
+  simp only [roundtrip limit r emitted he hperm]
+  exact ⟨trivial, hperm, trivial, trivial⟩
+
+/-! ## LIST -/
+
+theorem getField_of_mem {fs : Fields} {k v : Bytes} (hn : (fs.map (·.1)).Nodup) (hm : (k, v) ∈ fs) : getField fs k = some v := by
+  induction fs with
+  | nil => simp at hm
+  | cons p fs ih =>
+    simp only [List.map_cons, List.nodup_cons] at hn
+    unfold getField
+    by_cases hp : p.1 = k
+    · rcases List.mem_cons.mp hm with h | h
+      · subst h; simp
+      · exfalso; exact hn.1 (by rw [hp]; exact List.mem_map_of_mem (f := (·.1)) h)
+    · have hne : (p.1 == k) = false := by simpa using hp
+      rcases List.mem_cons.mp hm with h | h
+      · subst h; simp at hp
+      · have := ih hn.2 h
+        unfold getField at this
+        simp only [List.find?_cons, hne]
+        exact this
+
+theorem listEmittable (limit : Nat) (snapshot : List ChunkEntry) (hv : ∀ e ∈ snapshot, EntryValid e)
+    (hcount : snapshot.length < 18446744073709551616) : Emittable limit (handleList snapshot) := by
+  have hkCode : KeyOk (ascii "CODE") := keyOk_of_class (by decide) (by decide) (by decide)
+  have hkCount : KeyOk (ascii "COUNT") := keyOk_of_class (by decide) (by decide) (by decide)
+  have hkEntries : KeyOk (ascii "ENTRIES") := keyOk_of_class (by decide) (by decide) (by decide)
+  have hkeys : ((handleList snapshot).fields.map (·.1)).Nodup := by
+    show ([ascii "CODE", ascii "COUNT", ascii "ENTRIES"] : List Bytes).Nodup
+    decide
+  refine ⟨?_, ?_, hkeys, by simp [handleList], by simp [handleList], by simp [handleList]⟩
+  · intro e he
+    simp only [handleList, List.mem_cons, List.mem_nil_iff, or_false] at he
+    rcases he with rfl | rfl | rfl <;> assumption
+  · intro e he
+    simp only [handleList, List.mem_cons, List.mem_nil_iff, or_false] at he
+    rcases he with rfl | rfl | rfl
+    · intro l hl
+      have : splitBy 10 (ascii "CODE" ++ 58 :: encodeValue (ascii "OK_LIST")) [] = [ascii "CODE:OK_LIST"] := by decide
+      rw [this] at hl
+      have : l = ascii "CODE:OK_LIST" := by simpa using hl
+      rw [this]; decide
+    · intro l hl
+      have hd := toDec_clean snapshot.length
+      have henc : encodeValue (toDec snapshot.length) = toDec snapshot.length := by
+        rw [encodeValue_noLF (fun c hc => (hd c hc).1), escSeg_id (fun c hc => ⟨(hd c hc).2.2.1, (hd c hc).2.1⟩)]
+      simp only at hl
+      have hkc : ∀ c ∈ ascii "COUNT", c ≠ 10 := by decide
+      rw [henc, splitBy_noSep 10 _ [] (by
+        intro c hc
+        rcases List.mem_append.mp hc with h | h
+        · exact hkc c h
+        · rcases List.mem_cons.mp h with rfl | h
+          · decide
+          · exact (hd c h).1)] at hl
+      have : l = ascii "COUNT" ++ 58 :: toDec snapshot.length := by simpa using hl
+      rw [this]
+      have h20 := toDec_len20 hcount
+      have h5 : (ascii "COUNT").length = 5 := by decide
+      simp only [List.length_append, List.length_cons, h5, clientMaxLine]
+      have : Gen.C29.kClientMaxLineLength = 16384 := by decide
+      omega
+    · intro l hl
+      simp only at hl
+      have henc := encodeValue_entries snapshot hv
+      unfold entriesValue at henc
+      rw [henc] at hl
+      have hshape : ascii "ENTRIES" ++ 58 :: (snapshot.flatMap fun e => entryText e ++ [10, 9]) =
+          (ascii "ENTRIES" ++ [58]) ++ (snapshot.flatMap fun e => entryText e ++ [10, 9]) := by simp
+      rw [hshape] at hl
+      have := entries_lines_short snapshot (ascii "ENTRIES" ++ [58]) hv (by decide) (by decide) l hl
+      have h2 : Gen.C29.kClientMaxLineLength = 16384 := by decide
+      simp only [clientMaxLine, h2]
+      omega
+
+/-- **C29.list**: whatever the number of chunks and the order in which the three fields are emitted,
+    `eph list` prints the count and one line per chunk of the snapshot, in snapshot order -/
+theorem list (limit : Nat) (snapshot : List ChunkEntry) (emitted : Fields)
+    (hv : ∀ e ∈ snapshot, EntryValid e) (hcount : snapshot.length < 18446744073709551616)
+    (hperm : emitted.Perm (handleList snapshot).wireFields) :
+    printList (parseResponse limit (serialise true emitted [])) =
+      (ascii "Local chunks: " ++ toDec snapshot.length) :: snapshot.map cliLine := by
+  have he := listEmittable limit snapshot hv hcount
+  have hr := roundtrip limit (handleList snapshot) emitted he hperm
+  have hs : (handleList snapshot).success = true := rfl
+  have hp : (handleList snapshot).payload = [] := rfl
+  rw [hs, hp] at hr
+  rw [hr]
+  have hnodup : (emitted.map (·.1)).Nodup := by
+    have hp' : (emitted.map (·.1)).Perm ((handleList snapshot).wireFields.map (·.1)) := hperm.map _
+    rw [hp'.nodup_iff]
+    show ([ascii "CODE", ascii "COUNT", ascii "ENTRIES"] : List Bytes).Nodup
+    decide
+  have hmem : (ascii "ENTRIES", entriesValue snapshot) ∈ emitted := by
+    rw [hperm.mem_iff]
+    simp [Response.wireFields, handleList, entriesValue]
+  unfold printList
+  simp only [getField_of_mem hnodup hmem, cli_entries snapshot hv, List.length_map]
+
+/-- the listing in the exact form of the model's `expectedListing` -/
+theorem list_expected (limit : Nat) (snapshot : List ChunkEntry) (emitted : Fields)
+    (hv : ∀ e ∈ snapshot, EntryValid e) (hcount : snapshot.length < 18446744073709551616)
+    (hperm : emitted.Perm (handleList snapshot).wireFields) :
+    printList (parseResponse limit (serialise true emitted [])) = expectedListing snapshot ∧
+    (printList (parseResponse limit (serialise true emitted []))).length = snapshot.length + 1 := by
+  rw [list limit snapshot emitted hv hcount hperm]
+  exact ⟨rfl, by simp⟩
+
+/-! ## non-vacuity -/
+
+/-- a response with a two-line value, a value made of CR / backslash / TAB / colon bytes, an empty value and a payload -/
+def sample : Response :=
+  { success := true,
+    fields := [(ascii "ENTRIES", ascii "aa,1,plain,5\nbb,2,plain,6\n"), (ascii "WEIRD-KEY_", [13, 92, 92, 114, 9, 58, 10, 10, 92]),
+               (ascii "EMPTY", [])],
+    hasPayload := true, payload := ascii "payload bytes" }
+
+example : Emittable 100 sample := by
+  refine ⟨?_, ?_, by decide, by decide, by decide, by decide⟩
+  · intro e he
+    simp only [sample, List.mem_cons, List.mem_nil_iff, or_false] at he
+    rcases he with rfl | rfl | rfl <;> exact keyOk_of_class (by decide) (by decide) (by decide)
+  · intro e he
+    simp only [sample, List.mem_cons, List.mem_nil_iff, or_false] at he
+    rcases he with rfl | rfl | rfl <;> (intro l hl; revert l; decide)
+
+/-- without the repair's encoding the same bytes do not survive: the raw value would end the header at its blank line -/
+example : (parseResponse 100 (ascii "STATUS:OK\nX:a\n\nb\n\n")).fields ≠ [(ascii "X", ascii "a\n\nb")] := by decide
+
+/-- two valid chunk entries (so `list` is about a listing with more than one chunk) -/
+example : ∃ a b : ChunkEntry, a ≠ b ∧ EntryValid a ∧ EntryValid b :=
+  ⟨{ idHex := List.replicate 64 97, size := 7, encrypted := true, ttl := 3600 },
+   { idHex := List.replicate 64 98, size := 8, encrypted := false, ttl := 0 },
+   by decide,
+   ⟨by decide, by decide, by decide, by decide⟩, ⟨by decide, by decide, by decide, by decide⟩⟩
 
 end EphVerif.C29
